@@ -64,7 +64,7 @@ class Work:
         return out
 
     # ------------------------------------------------------------ driver
-    def drive(self, mode, name, args, timeout=600):
+    def drive(self, mode, name, args, timeout=2400):
         """run the driver; returns (trace path, summary dict)"""
         tr = os.path.join(self.dir, name + ".ndjson")
         sm = os.path.join(self.dir, name + ".sum.json")
